@@ -4,7 +4,9 @@ From Dashu Require Import Base.Prelude Base.Words Int.ModRingSpec Int.ModRingSpe
   Int.ModRingPowModel Int.ModRingPowProofs Int.ModRingModel Int.ModRingProofs Int.ModRingOpsProofs
   Int.ModRingMain Int.ModRingExpr Int.ModRingInst Int.ModRingInstProofs
   Int.DivWordModel Int.DivLargeProofs Int.DivContracts Int.ModRingWords Int.ModRingWordsProofs Int.ModRingWordsMulProofs Int.ModRingWordsInst
-  Int.DivNumModular Int.ModRingNumModular.
+  Int.DivNumModular Int.ModRingNumModular Int.ModRingNumModularDefs
+  Int.ModRingConv Int.ModRingConvProofs Int.ModRingWordsSrc Int.ModRingConvInst Int.ModRingConvInstProofs Int.ModRingGenProofs.
+From DashuGen Require Import ModRingGen.
 Open Scope Z_scope.
 
 (** ---------------- what the statement demands of the specification ---------------- *)
@@ -448,3 +450,161 @@ Theorem C13_nm_expr : forall w, 2 <= w -> forall fgcd r e, gcd_ext_ok fgcd -> ri
   end.
 Proof. exact nm_expr. Qed.
 Print Assumptions C13_nm_expr.
+
+(** ==================== round 3 ==================== *)
+(** ---------------- the multi-word ring on word lists with EVERY kernel transcribed: no contract left ---------------- *)
+(** mul_in_place / mul_normalized / sqr / sliding-window pow with C01's multiply / sqr, C02's div_rem_in_place,
+    num-modular's div_rem_3by2 as transcribed and C01's add_signed_mul as the subtract-multiply kernel: every w >= 8 *)
+Theorem C13_words_mul_pow_src : forall w, 8 <= w -> forall R r x y a b e,
+  lring_ok w R r -> ring_wf w r -> wrep w R r x a -> wrep w R r y b -> 0 <= e ->
+  (exists c, wl_mul_in_place w (k_mul w) (k_sqr w) (src_div w) R a b = Ok c /\ wrep w R r (x * y) c) /\
+  (exists c, wl_mul_normalized w (k_mul w) (src_div w) R a b = Ok c /\ wrep w R r (x * y) c) /\
+  (exists c, wl_sqr w (k_sqr w) (src_div w) R a = Ok c /\ wrep w R r (x * x) c) /\
+  (exists c, wl_pow w (k_mul w) (k_sqr w) (src_div w) R a e = Ok c /\ wrep w R r (x ^ e) c).
+Proof. exact src_mul_pow. Qed.
+Print Assumptions C13_words_mul_pow_src.
+
+(** ConstLargeDivisor::new (div::normalize) builds the word-level form of the ring new_ring describes *)
+Theorem C13_words_new : forall w, 2 <= w -> forall id m, Words.B w * Words.B w <= m ->
+  exists R r, wl_new w m = Ok R /\ new_ring w id m = Ok r /\ lring_ok w R r /\ ring_wf w r /\ r_m r = m /\ r_id r = id /\
+              r_kind r = KLarge.
+Proof. exact wl_new_ok. Qed.
+Print Assumptions C13_words_new.
+
+(** ConstLargeDivisor::rem_large: shift, optional carry word, full division only for long buffers - for any division
+    kernel meeting the contract of div::div_rem_in_place *)
+Theorem C13_words_rem_large : forall w, 2 <= w -> forall divk,
+  (forall lhs rhs, kernel_pre w lhs rhs -> exists res c, divk lhs rhs = Ok (res, c) /\ kernel_post w lhs rhs res c) ->
+  forall R r words, lring_ok w R r -> ring_wf w r -> Words.wf w words ->
+  exists buf, wl_rem_large w divk R words = Ok buf /\ Words.wf w buf /\ (length buf <= length (lr_nd R))%nat /\
+              Words.value w buf = (Words.value w words * 2 ^ r_shift r) mod nd r.
+Proof. exact wl_rem_large_ok. Qed.
+Print Assumptions C13_words_rem_large.
+
+(** ConstDivisor::new + reduce of any integer (UBig, IBig and every primitive go through these two) + residue + modulus
+    on word lists with the real kernels: negative numbers get the canonical representative *)
+Theorem C13_words_new_reduce_src : forall w, 8 <= w -> forall id m a, Words.B w * Words.B w <= m ->
+  exists R r l, wl_new w m = Ok R /\ new_ring w id m = Ok r /\ lring_ok w R r /\ ring_wf w r /\ r_m r = m /\
+    wl_into_ring_ibig w (src_div w) R a = Ok l /\ wrep w R r a l /\
+    (exists c, wl_residue w R l = Ok c /\ Words.wf w c /\ Words.value w c = a mod m) /\
+    (exists d, wl_divisor w R = Ok d /\ Words.wf w d /\ Words.value w d = m) /\
+    0 <= a mod m < m.
+Proof. exact src_new_reduce. Qed.
+Print Assumptions C13_words_new_reduce_src.
+
+Theorem C13_words_from_ubig_src : forall w, 8 <= w -> forall R r x, lring_ok w R r -> ring_wf w r -> 0 <= x ->
+  (exists l, wl_from_ubig w (src_div w) R x = Ok l /\ wrep w R r x l) /\
+  wl_transform w (src_div w) R x = Ok ((x mod r_m r) * 2 ^ r_shift r).
+Proof. exact src_from_ubig. Qed.
+Print Assumptions C13_words_from_ubig_src.
+
+(** the one- and two-word rings reduce a multi-word operand on its WORDS (fast_rem_by_normalized_word / _dword as
+    proved by C02, num-modular as transcribed) exactly as the value-level model says *)
+Theorem C13_small_from_ubig_words : forall w, 8 <= w -> forall r x, ring_wf w r -> 0 <= x ->
+  (r_kind r = KSingle -> ws_from_ubig w (nm1by1 w) (nm2by1 w) r x = s_from_ubig w (nm2by1 w) r x) /\
+  (r_kind r = KDouble -> wd_from_ubig w (nm2by2 w) (nm3by2 w) (nm4by2 w) r x = d_from_ubig w (nm3by2 w) r x).
+Proof. exact src_small_from_ubig. Qed.
+Print Assumptions C13_small_from_ubig_words.
+
+(** inv_large on word lists: unshift, the 0 / 1 / 2 / n word dispatch, the `g_len == 1 && raw[0] == 1` test on the words
+    of g, zero fill, shift back, is_valid, negate - Some(inverse) exactly when gcd = 1.  Premise: the contract of the
+    multi-word extended gcd (gcd_ext_word / gcd_ext_dword / gcd_ext_in_place), nothing else *)
+Theorem C13_words_inv : forall w, 2 <= w -> forall fgcd,
+  (forall lhs rhs, 0 < rhs < lhs ->
+     let '(g, b, s) := fgcd lhs rhs in
+     g = Z.gcd lhs rhs /\ 0 <= b < lhs /\ (g = 1 -> (rhs * signed s b) mod lhs = 1 mod lhs)) ->
+  forall R r x raw, lring_ok w R r -> ring_wf w r -> wrep w R r x raw ->
+  exists o, wl_inv w fgcd R raw = Ok o /\
+    match o with
+    | Some c => exists v, wrep w R r v c /\ is_inverse (r_m r) x (v mod r_m r) /\ Z.gcd x (r_m r) = 1
+    | None => Z.gcd x (r_m r) <> 1
+    end.
+Proof. exact wl_inv_ok. Qed.
+Print Assumptions C13_words_inv.
+
+(** ---------------- the second extracted 64-bit instance (word lists + real kernels; num-modular transcribed) ---------------- *)
+Theorem C13_hrun_reduce : forall m a, 1 <= m -> hrun_reduce m a = Ok (reduce_spec m a, m).
+Proof. exact hrun_reduce_correct. Qed.
+Print Assumptions C13_hrun_reduce.
+
+Theorem C13_hrun_un : forall o m a, 1 <= m -> hrun_un o m a = Ok (un_spec o m a).
+Proof. exact hrun_un_correct. Qed.
+Print Assumptions C13_hrun_un.
+
+Theorem C13_hrun_bin : forall o m a b, 1 <= m -> hrun_bin o m a b = bin_spec o m a b.
+Proof. exact hrun_bin_correct. Qed.
+Print Assumptions C13_hrun_bin.
+
+Theorem C13_hrun_pow : forall m a e, 1 <= m -> 0 <= e -> hrun_pow m a e = Ok (powm m a e).
+Proof. exact hrun_pow_correct. Qed.
+Print Assumptions C13_hrun_pow.
+
+Theorem C13_hrun_inv : forall m a, 1 <= m -> hrun_inv m a = Ok (inv_spec m a).
+Proof. exact hrun_inv_correct. Qed.
+Print Assumptions C13_hrun_inv.
+
+Theorem C13_hrun_eq : forall m a b, 1 <= m -> hrun_eq m a b = Ok (reduce_spec m a =? reduce_spec m b).
+Proof. exact hrun_eq_correct. Qed.
+Print Assumptions C13_hrun_eq.
+
+Theorem C13_hrun_transform : forall m a, 1 <= m -> 0 <= a ->
+  hrun_transform m a = rbind (i_new 0 m) (fun r => Ok (reduce_spec m a * 2 ^ r_shift r)).
+Proof. exact hrun_transform_correct. Qed.
+Print Assumptions C13_hrun_transform.
+
+(** ConstDivisor::new(0) / from_word(0) / from_dword(0): the documented panic *)
+Theorem C13_new_zero : forall w id m, m <= 0 -> new_ring w id m = Panic DivideBy0.
+Proof. intros w id m H. unfold new_ring. destruct (Z.leb_spec m 0); [reflexivity | lia]. Qed.
+Print Assumptions C13_new_zero.
+
+(** ---------------- fragments regenerated from the Rust sources on every run (coq/gen/ModRingGen.v) ---------------- *)
+Theorem C13_gen_window_len : forall w n, gen_choose_window_len w n = choose_window_len w n /\ (2 <= w -> 1 <= gen_choose_window_len w n < w).
+Proof. intros w n. split; [apply gen_choose_window_len_eq | apply gen_window_range]. Qed.
+Print Assumptions C13_gen_window_len.
+
+Theorem C13_gen_pow_params : forall w (T : Type) (one : T) (sqr : T -> T) (mul : T -> T -> T) winf raw exp,
+  pow_nontrivial_large w T sqr mul winf raw exp =
+    let bl := Z.log2 exp + 1 in
+    let wl := gen_choose_window_len w bl in
+    let val := sqr raw in
+    window_loop T sqr mul winf (Z.to_nat bl) raw (build_table T mul (Z.to_nat (gen_table_entries wl)) raw val) wl exp (gen_first_bit bl) val.
+Proof. exact gen_pow_params. Qed.
+Print Assumptions C13_gen_pow_params.
+
+(** finite domain (stated bound): exponent bit lengths 2 .. gen_window_table_max = 4096, 64-bit words *)
+Theorem C13_gen_window_table : forall n, 2 <= n <= gen_window_table_max ->
+  table_lookup gen_window_table n = Some (choose_window_len 64 n) /\ table_lookup gen_window_table n = Some (gen_choose_window_len 64 n).
+Proof. exact gen_window_table_ok. Qed.
+Print Assumptions C13_gen_window_table.
+
+Theorem C13_gen_comparisons : forall c n s,
+  gen_cmp_add_in_place c = is_ge c /\ gen_cmp_dbl_in_place c = is_ge c /\
+  gen_cmp_mul_normalized c = is_ge c /\ gen_cmp_sqr_normalized c = is_ge c /\
+  gen_cmp_is_valid_large c = is_lt c /\ gen_cmp_reducer_check c = is_lt c /\
+  gen_mul_long n s = (n <? s)%nat /\ gen_sqr_long n s = (n <? s)%nat.
+Proof.
+  intros c n s. destruct (gen_comparisons c) as (H1 & H2 & H3 & H4 & H5 & H6). destruct (gen_long_switch n s) as (H7 & H8).
+  repeat split; assumption.
+Qed.
+Print Assumptions C13_gen_comparisons.
+
+Theorem C13_gen_units : forall w f2 r,
+  raw_one w f2 r = match r_kind r with
+                   | KSingle => if gen_one_word_reduced then s_rem_word w f2 r 1 else Ok (2 ^ r_shift r)
+                   | KDouble => if gen_one_dword_reduced then Panic Undocumented else Ok (2 ^ r_shift r)
+                   | KLarge => Ok (2 ^ r_shift r)
+                   end.
+Proof. exact gen_units. Qed.
+Print Assumptions C13_gen_units.
+
+(** IntoRing for every primitive type listed in convert.rs: the reduced form of every value of the type *)
+Theorem C13_gen_into_ring_prims : forall w, 2 <= w -> forall r t via bits sg v, ring_wf w r ->
+  In (t, via, bits) (gen_into_ring_prims w) -> In (t, sg) gen_into_ring_signed -> prim_range sg bits v ->
+  via = sg /\
+  exists e, prim_into_ring w (nm2by1 w) (nm3by2 w) via r v = Ok e /\ rep r v e /\ residue_asis e = Ok (v mod r_m r) /\ 0 <= v mod r_m r < r_m r.
+Proof.
+  intros w Hw r t via bits sg v Hwf H1 H2 Hr. split; [exact (gen_prims_via w t via bits sg H1 H2)|].
+  pose proof (externals_nm w ex_gcd_ext Hw ex_gcd_ext_ok) as E.
+  exact (gen_prims_reduce w Hw (nm2by1 w) (nm3by2 w) (ext_2by1 _ _ _ _ _ E) (ext_3by2 _ _ _ _ _ E) r t via bits sg v Hwf H1 H2 Hr).
+Qed.
+Print Assumptions C13_gen_into_ring_prims.
